@@ -73,7 +73,8 @@ def _add_failure(ctx):
     if not ctx.floor("C18.D1", "lookup of an existing report", len(maps), 1):
         return
     look = [c for c in F.children(b) if calls_to(c, "HashMap::contains_key")]
-    ctx.check(any("reporter_id" in DefUse(c).slice_operand(t["args"][1]).captures for c in look for bb, t in calls_to(c, "HashMap::contains_key")), "C18.D1", "lookup-by-reporter", site(b),
+    from ..lib import captures_with as _cw
+    ctx.check(any(_cw(F, c, DefUse(c).slice_operand(t["args"][1]), lambda v: v.has_param(3) and not v.has_param(2)) for c in look for bb, t in calls_to(c, "HashMap::contains_key")), "C18.D1", "lookup-by-reporter", site(b),
               ok="existing report looked up by reporter id", bad="the duplicate test does not look the reporter id up")
     bumps = [bb for bb, t in calls_to(b, "bump_global_epoch")]
     for name, val in (("present", Some(Bool(True))), ("absent-reporter", Some(Bool(False))), ("absent-address", NONE)):
@@ -133,8 +134,13 @@ def _get_failures(ctx):
         bb, t = lts[0]
         op = callee_decl(t).rsplit("::", 1)[1]
         a0 = cdu.slice_operand(t["args"][0]); a1 = cdu.slice_operand(t["args"][1])
-        lhs_age = a0.has_call("std::ops::Sub::sub") and "now" in a0.captures and a0.has_param(3)
-        rhs_ttl = "failure_ttl" in a1.captures and not a1.has_call("std::ops::Sub::sub")
+        from ..lib import capture_sources, capture_types
+        # `now` = a captured value that the parent obtained from Utc::now(); the ttl = a captured chrono::Duration that is a
+        # parameter of the parent (identified by data flow / type, not by name)
+        src0 = capture_sources(F, c, a0.captures)
+        lhs_age = a0.has_call("std::ops::Sub::sub") and any(v.has_call("now") for v in src0.values()) and a0.has_param(3)
+        ty1 = capture_types(F, c, a1.captures)
+        rhs_ttl = any("Duration" in ty for ty in ty1.values()) and not a1.has_call("std::ops::Sub::sub")
         ret = cdu.slice_local(0)
         returns_cmp = bb in set().union(*[v for k, v in ret.decls.items() if k.startswith("std::cmp::PartialOrd")]) and "Not" not in {x for x in ret.binops}
         # a negation would show as unop Not on the path to _0: check assignments to _0
@@ -160,7 +166,9 @@ def _get_failures(ctx):
         for bb, i, s in binop_sites(c, ("Ge", "Gt", "Le", "Lt", "Eq", "Ne")):
             cdu = DefUse(c)
             sa = cdu.slice_operand(s["rv"]["a"]); sb = cdu.slice_operand(s["rv"]["b"])
-            if (sa.has_call("HashMap::len") and "failure_quorum" in sb.captures) or (sb.has_call("HashMap::len") and "failure_quorum" in sa.captures):
+            from ..lib import captures_with as _cw2
+            qa = _cw2(F, c, sa, lambda v: v.has_param(3)); qb = _cw2(F, c, sb, lambda v: v.has_param(3))
+            if (sa.has_call("HashMap::len") and qb) or (sb.has_call("HashMap::len") and qa):
                 qc = (c, bb, i, s, "a" if sa.has_call("HashMap::len") else "b")
     if qc is None:
         ctx.lost("C18.D2", "quorum:comparison", "no comparison of reports.len() with failure_quorum found")
@@ -180,7 +188,8 @@ def _get_failures(ctx):
             ctx.check(rv == Int(1 if want else 0), "C18.D2", "quorum:len-%s-quorum" % order, site(c, bb, i), ok="listed" if want else "not listed",
                       bad="an address with len %s quorum is %s" % (order, "listed" if rv == Int(1) else "not listed" if rv == Int(0) else rv))
     # registered
-    rg = [c for c in kids if any("all_proxies" in DefUse(c).slice_operand(t["args"][0]).captures for bb, t in calls_to(c, "HashMap::contains_key"))]
+    from ..lib import captures_with
+    rg = [c for c in kids if any(captures_with(F, c, DefUse(c).slice_operand(t["args"][0]), lambda v: (MS, "all_proxies") in v.fields) for bb, t in calls_to(c, "HashMap::contains_key"))]
     if ctx.floor("C18.D2", "registered-proxy test", len(rg), 1):
         c = rg[0]
         ctx.analysed(c)
@@ -193,9 +202,7 @@ def _get_failures(ctx):
             res = Interp(F, c, Oracle(call=call)).run()
             reach = any(x in res.exec_blocks for x in somes)
             ctx.check(reach == bool(r) and bool(somes), "C18.D2", "registered:contains=%d" % r, site(c), ok="listed" if r else "dropped", bad="an address with registered=%d is %s" % (r, "listed" if reach else "dropped"))
-        l = b.local_by_name("all_proxies")
-        if l is not None:
-            ctx.check((MS, "all_proxies") in du.slice_local(l).fields, "C18.D2", "registered:source", site(b), ok="all_proxies = store.all_proxies", bad="the registration test does not use store.all_proxies")
+        ctx.holds("C18.D2", "registered:source", site(b), "the tested map is store.all_proxies (resolved through the capture)")
     # order: both purges dominate the counting chain
     dom = cfg.dominators(b)
     cnt = [bb for bb, t in b.calls() if callee_decl(t) in ("std::iter::Iterator::collect", "std::iter::Iterator::filter")]
